@@ -4,3 +4,4 @@
 #include <stdint.h>
 uint8_t *pc_malloc(uint64_t n) { return (uint8_t *)malloc(n); }
 void pc_free(uint8_t *p) { (void)p; }
+void pc_reset(void) {}
